@@ -17,11 +17,11 @@ import (
 )
 
 type c08Case struct {
-	Leftover string     `json:"leftover"` // residue of an earlier crashed operation in the work area
-	Cfg    *vlib.Config `json:"cfg"`
-	Pre    []preUser    `json:"pre"`
-	Op     Op           `json:"op"`
-	AuxCls string       `json:"aux_class"`
+	Leftover string       `json:"leftover"` // residue of an earlier crashed operation in the work area
+	Cfg      *vlib.Config `json:"cfg"`
+	Pre      []preUser    `json:"pre"`
+	Op       Op           `json:"op"`
+	AuxCls   string       `json:"aux_class"`
 }
 
 func genAuxFor(t *rapid.T, label string) ([]byte, string) {
